@@ -1,5 +1,312 @@
-"""Number codec and ordering rules (R18.x), shared by C01, C04, C14, C18."""
+"""Number codec and ordering rules (R18.x), shared by C01, C04, C12, C14, C18."""
+from sym import explore, show, lin, subterms, INT_RANGES
+from pat import called, canon, is_call, agg_variant, strip_casts, const_of, deref_all, find_terms
+from pathfacts import PathFacts, IntervalSet, INF
+from rules.layout import cv
+
+NUM = 'number::Number'
+
+
+def is_residual(ret):
+    return is_call(ret, 'FromResidual::from_residual')
+
+
+def variant_of_path(p):
+    for c in p.conds:
+        if c[0][0] == 'discr' and c[1] == 'eq':
+            return c[2]
+    return None
+
+
+def payload_value_atom(p):
+    """The term standing for the matched integer/float payload `*v` in compact_encode paths."""
+    for c in p.conds:
+        for s in subterms(c[0]):
+            if s[0] == 'field' and s[1][0] == 'downcast':
+                return s
+    return None
+
+
+def written_chunks(p):
+    """Arguments of the successive write_all calls of a path, as terms with refs stripped."""
+    out = []
+    for e in p.calls():
+        if called(e[1], 'Write::write_all'):
+            out.append(deref_all(e[2][1]))
+    return out
+
+
+def chunk_desc(t, facts):
+    """Describe one written chunk: ('bytes', (b,...)) | ('be', tyname, source term) | ('?', term)"""
+    t = deref_all(t)
+    if t[0] == 'const' and isinstance(t[1], tuple):
+        return ('bytes', tuple(t[1]))
+    if t[0] == 'agg' and t[1] == 'array':
+        vals = [const_of(x) for x in t[2]]
+        if all(v is not None for v in vals):
+            return ('bytes', tuple(vals))
+    if t[0] == 'call' and canon(t[1]).endswith('to_be_bytes'):
+        # callee path: core::num::<impl i8>::to_be_bytes / core::f64::<impl f64>::to_be_bytes
+        import re
+        m = re.search(r'impl (\w+)>::to_be_bytes', t[1])
+        ty = m.group(1) if m else '?'
+        return ('be', ty, deref_all(t[2][0]))
+    return ('?', t)
+
+
+WIDTH = {'i8': 1, 'i16': 2, 'i32': 4, 'i64': 8, 'u8': 1, 'u16': 2, 'u32': 4, 'u64': 8, 'f64': 8}
+
+
 def r18_1(ctx, run, rule='R18.1'):
-    pass
-def r18_2(ctx, run, rule='R18.2'):
-    pass
+    """Encoder: exact, lossless, shortest partition of the value range; tag bytes; returned count = bytes written."""
+    f = ctx.facts
+    b = f.one('number::Number::compact_encode')
+    if b is None:
+        run.violation(rule, 'number::Number::compact_encode', 'body', 'function not found (anchor lost)')
+        return {}
+    ps, capped = explore(b, max_paths=4000)
+    if capped:
+        run.undecided(rule, b.path, 'paths', 'path cap exceeded')
+    vs = [v['name'] for v in f.adts[NUM]['variants']]
+    tags = {n: cv(f, n) for n in ('NUMBER_ZERO', 'NUMBER_NAN', 'NUMBER_INF', 'NUMBER_NEG_INF', 'NUMBER_INT', 'NUMBER_UINT', 'NUMBER_FLOAT')}
+    table = {}   # (variant, ty) -> tag   (for the decoder inverse)
+    covered = {'Int64': IntervalSet([]), 'UInt64': IntervalSet([])}
+    npaths = 0
+    for p in ps:
+        if p.end[0] != 'return' or is_residual(p.ret):
+            continue
+        vi = variant_of_path(p)
+        if vi is None or vi >= len(vs):
+            continue
+        vname = vs[vi]
+        chunks = [chunk_desc(c, f) for c in written_chunks(p)]
+        nbytes = 0
+        okshape = True
+        for c in chunks:
+            if c[0] == 'bytes':
+                nbytes += len(c[1])
+            elif c[0] == 'be':
+                nbytes += WIDTH.get(c[1], 0)
+            else:
+                okshape = False
+        ret = p.ret
+        rc = None
+        if agg_variant(ret) and ret[1][2] == 'Ok':
+            rc = const_of(ret[2][0])
+        loc = f"{b.file}:{b.blocks[p.end[1]]['term'].get('line')}"
+        npaths += 1
+        desc_key = None
+        if not okshape:
+            run.violation(rule, b.path, f'path[{vname}]/shape', f'bytes written are not constant tag bytes / to_be_bytes: {[show(c[1]) if c[0]=="?" else c for c in chunks]}', loc)
+            continue
+        if rc != nbytes:
+            run.violation(rule, b.path, f'path[{vname}]/count', f'returns Ok({rc}) but writes {nbytes} byte(s) on this path', loc)
+        if vname in ('Int64', 'UInt64'):
+            ty64 = 'i64' if vname == 'Int64' else 'u64'
+            atom = payload_value_atom(p)
+            pf = PathFacts(p.conds)
+            rng = (pf.range_of(atom) if atom is not None else IntervalSet()).intersect(IntervalSet.of_type(ty64))
+            if rng.empty():
+                continue
+            covered[vname] = covered[vname].union(rng)
+            tagb = chunks[0][1][0] if chunks and chunks[0][0] == 'bytes' and len(chunks[0][1]) == 1 else None
+            if len(chunks) == 1:
+                # one-byte form: only the value zero
+                ok = tagb == tags['NUMBER_ZERO'] and rng == IntervalSet([(0, 0)])
+                (run.proved if ok else run.violation)(rule, b.path, f'arm[{vname} zero]',
+                                                       f'{rng} -> [NUMBER_ZERO]' if ok else f'values {rng} are written as the single byte {tagb}: only 0 may use the one-byte form', loc)
+                table[(vname, 'zero')] = tagb
+                continue
+            exp_tag = tags['NUMBER_INT'] if vname == 'Int64' else tags['NUMBER_UINT']
+            if tagb != exp_tag:
+                run.violation(rule, b.path, f'arm[{vname}]/tag', f'tag byte {tagb} for {vname}, expected {exp_tag:#x}', loc)
+            if len(chunks) != 2 or chunks[1][0] != 'be':
+                run.violation(rule, b.path, f'arm[{vname}]/payload', f'payload is not one big-endian integer: {chunks}', loc)
+                continue
+            ty = chunks[1][1]
+            src = chunks[1][2]
+            signed_ok = ty.startswith('i') == (vname == 'Int64')
+            tr = IntervalSet.of_type(ty)
+            narrower = {'i16': 'i8', 'i32': 'i16', 'i64': 'i32', 'u16': 'u8', 'u32': 'u16', 'u64': 'u32'}.get(ty)
+            lossless = rng.subset_of(tr)
+            shortest = True
+            if narrower:
+                shortest = rng.intersect(IntervalSet.of_type(narrower)).empty()
+            else:
+                shortest = True
+            # 0 must not take a multi-byte form
+            nozero = rng.intersect(IntervalSet([(0, 0)])).empty()
+            # the source of the cast must be the matched value itself
+            srcv = strip_casts(src)
+            same = atom is not None and (srcv == atom or deref_all(srcv) == atom)
+            ok = signed_ok and lossless and shortest and nozero and same
+            msg = f'values {rng} -> tag {tagb:#x} + {ty} big-endian ({WIDTH[ty]} bytes)'
+            if ok:
+                run.proved(rule, b.path, f'arm[{vname} as {ty}]', msg, loc)
+            else:
+                why = []
+                if not signed_ok:
+                    why.append('signedness of the narrow type differs from the variant')
+                if not lossless:
+                    why.append(f'cast to {ty} loses values outside {tr}')
+                if not shortest:
+                    why.append(f'values fitting {narrower} are written in {WIDTH[ty]} bytes (not the shortest form)')
+                if not nozero:
+                    why.append('zero takes a multi-byte form')
+                if not same:
+                    why.append(f'payload written is {show(src)}, not the value itself')
+                run.violation(rule, b.path, f'arm[{vname} as {ty}]', msg + ': ' + '; '.join(why), loc)
+            table[(vname, ty)] = tagb
+        elif vname == 'Float64':
+            # classify by the float predicates tested on the path
+            preds = {}
+            extra = []
+            for c in p.conds:
+                t = c[0]
+                if t[0] == 'call' and called(t[1], 'f64::is_nan', 'f64::is_infinite', 'f64::is_sign_negative', 'f64::is_finite', 'f64::is_sign_positive'):
+                    preds[canon(t[1]).split('::')[-1]] = c[2]
+                elif t[0] == 'discr':
+                    continue
+                elif is_call(t, 'Try::branch') or (t[0] == 'discr'):
+                    continue
+                else:
+                    # any other test of the float value (e.g. `v == 0.0`) splits the finite class
+                    if any(s[0] == 'downcast' and s[2] == 'Float64' for s in subterms(t)):
+                        extra.append(c)
+            cls = None
+            if preds.get('is_nan') is True:
+                cls = 'nan'
+            elif preds.get('is_nan') is False and preds.get('is_infinite') is True:
+                cls = 'neg_inf' if preds.get('is_sign_negative') is True else ('inf' if preds.get('is_sign_negative') is False else 'inf?')
+            elif preds.get('is_nan') is False and preds.get('is_infinite') is False:
+                cls = 'finite'
+            exp = {'nan': [('bytes', (tags['NUMBER_NAN'],))], 'inf': [('bytes', (tags['NUMBER_INF'],))],
+                   'neg_inf': [('bytes', (tags['NUMBER_NEG_INF'],))]}
+            if cls in exp:
+                ok = chunks == exp[cls]
+                (run.proved if ok else run.violation)(rule, b.path, f'arm[Float64 {cls}]', 'one-byte form' if ok else f'{cls} is written as {chunks}', loc)
+                table[('Float64', cls)] = chunks[0][1][0] if chunks and chunks[0][0] == 'bytes' else None
+            elif cls == 'finite':
+                ok = (len(chunks) == 2 and chunks[0] == ('bytes', (tags['NUMBER_FLOAT'],)) and chunks[1][0] == 'be' and chunks[1][1] == 'f64'
+                      and any(s[0] == 'downcast' and s[2] == 'Float64' for s in subterms(chunks[1][2])))
+                if extra:
+                    ok2 = ok
+                    conds = '; '.join(f'{show(c[0])} = {c[2]}' for c in extra)
+                    if not ok2:
+                        run.violation(rule, b.path, 'arm[Float64 finite]/split', f'finite floats satisfying [{conds}] are written as {chunks} instead of NUMBER_FLOAT + 8 bytes: the float does not survive bit-for-bit', loc)
+                    else:
+                        run.proved(rule, b.path, 'arm[Float64 finite]/split', f'extra test [{conds}] does not change the encoding', loc)
+                else:
+                    (run.proved if ok else run.violation)(rule, b.path, 'arm[Float64 finite]', 'NUMBER_FLOAT + f64 big-endian (9 bytes)' if ok else f'finite floats are written as {chunks}', loc)
+                table[('Float64', 'f64')] = tags['NUMBER_FLOAT']
+            else:
+                conds = '; '.join(f'{show(c[0])} = {c[2]}' for c in extra) or str(preds)
+                run.violation(rule, b.path, 'arm[Float64 unclassified]', f'floats satisfying [{conds}] are written as {chunks} on a path that never established nan / infinite / finite: '
+                              f'only NaN and the infinities may use a one-byte form, every other float must be NUMBER_FLOAT + its 8 bytes', loc)
+    for vname, ty64 in (('Int64', 'i64'), ('UInt64', 'u64')):
+        full = IntervalSet.of_type(ty64)
+        if covered[vname] == full:
+            run.proved(rule, b.path, f'coverage[{vname}]', f'the width arms partition all of {ty64}')
+        else:
+            missing = full.intersect(covered[vname].complement())
+            run.violation(rule, b.path, f'coverage[{vname}]', f'no arm encodes the values {missing}', f'{b.file}:{b.line}')
+    for need in (('Int64', 'i8'), ('Int64', 'i16'), ('Int64', 'i32'), ('Int64', 'i64'), ('UInt64', 'u8'), ('UInt64', 'u16'), ('UInt64', 'u32'), ('UInt64', 'u64'),
+                 ('Float64', 'f64'), ('Float64', 'nan'), ('Float64', 'inf'), ('Float64', 'neg_inf')):
+        if need not in table:
+            run.violation(rule, b.path, f'arm[{need[0]} as {need[1]}]', 'this width/class arm was not found (anchor lost)', f'{b.file}:{b.line}')
+    run.floor(rule, 'compact_encode success paths', npaths, 14)
+    return table
+
+
+def r18_2(ctx, run, rule='R18.2', enc_table=None):
+    """Decoder table: (tag byte, payload length) -> from_be_bytes::<T> and the widening cast; inverse of the encoder;
+    every other (tag, length) returns Err."""
+    f = ctx.facts
+    b = f.one('number::Number::decode')
+    if b is None:
+        run.violation(rule, 'number::Number::decode', 'body', 'function not found (anchor lost)')
+        return
+    ps, capped = explore(b)
+    tags = {n: cv(f, n) for n in ('NUMBER_ZERO', 'NUMBER_NAN', 'NUMBER_INF', 'NUMBER_NEG_INF', 'NUMBER_INT', 'NUMBER_UINT', 'NUMBER_FLOAT')}
+    tname = {v: k for k, v in tags.items()}
+    table = {}
+    for p in ps:
+        if p.end[0] != 'return':
+            continue
+        tag = None
+        plen = None
+        tag_other = False
+        len_other = None
+        for c in p.conds:
+            t = c[0]
+            if t[0] == 'index' and c[1] == 'eq':
+                tag = c[2]
+            elif t[0] == 'index' and c[1] == 'ne':
+                tag_other = True
+            elif c[1] in ('eq', 'ne') and not isinstance(c[2], bool):
+                l = lin(t)
+                if len(l[0]) == 1 and list(l[0].values()) == [1] and l[1] == -1:
+                    a = list(l[0])[0]
+                    if a[0] == 'call' and called(a[1], 'slice::len', 'len') or a[0] == 'len':
+                        if c[1] == 'eq':
+                            plen = c[2]
+                        else:
+                            len_other = c[2]
+        ret = p.ret
+        res = None
+        if agg_variant(ret) and ret[1][2] == 'Err':
+            res = ('Err',)
+        elif agg_variant(ret) and ret[1][2] == 'Ok':
+            v = ret[2][0]
+            if agg_variant(v) and v[1][1] == NUM:
+                inner = v[2][0]
+                src = strip_casts(inner)
+                if src[0] == 'call' and canon(src[1]).endswith('from_be_bytes'):
+                    import re
+                    m = re.search(r'impl (\w+)>::from_be_bytes', src[1])
+                    res = ('be', v[1][2], m.group(1) if m else '?')
+                elif inner[0] == 'const':
+                    res = ('const', v[1][2], inner[1])
+                else:
+                    res = ('?', v[1][2], show(inner))
+        key = (tname.get(tag, tag) if not tag_other else 'otherwise', plen if plen is not None else ('otherwise' if len_other is not None else None))
+        table.setdefault(key, set()).add(res)
+    loc = f'{b.file}:{b.line}'
+    exp = {
+        ('NUMBER_ZERO', None): {('const', 'UInt64', 0)},
+        ('NUMBER_NAN', None): {('const', 'Float64', 'bits:9221120237041090560')},
+        ('NUMBER_INF', None): {('const', 'Float64', 'bits:9218868437227405312')},
+        ('NUMBER_NEG_INF', None): {('const', 'Float64', 'bits:18442240474082181120')},
+        ('NUMBER_INT', 1): {('be', 'Int64', 'i8')}, ('NUMBER_INT', 2): {('be', 'Int64', 'i16')},
+        ('NUMBER_INT', 4): {('be', 'Int64', 'i32')}, ('NUMBER_INT', 8): {('be', 'Int64', 'i64')},
+        ('NUMBER_UINT', 1): {('be', 'UInt64', 'u8')}, ('NUMBER_UINT', 2): {('be', 'UInt64', 'u16')},
+        ('NUMBER_UINT', 4): {('be', 'UInt64', 'u32')}, ('NUMBER_UINT', 8): {('be', 'UInt64', 'u64')},
+        ('NUMBER_FLOAT', 8): {('be', 'Float64', 'f64')},
+        ('NUMBER_INT', 'otherwise'): {('Err',)}, ('NUMBER_UINT', 'otherwise'): {('Err',)}, ('NUMBER_FLOAT', 'otherwise'): {('Err',)},
+        ('otherwise', None): {('Err',)},
+    }
+    for k, v in exp.items():
+        got = table.get(k)
+        d = f'row[{k[0]},{k[1] if k[1] is not None else "-"}]'
+        if got == v:
+            run.proved(rule, b.path, d, f'-> {sorted(v)[0]}', loc)
+        else:
+            # NaN bit pattern may legitimately be any NaN: accept any Float64 NaN constant
+            if k[0] == 'NUMBER_NAN' and got and all(r and r[0] == 'const' and r[1] == 'Float64' and str(r[2]).startswith('bits:') and _is_nan_bits(r[2]) for r in got):
+                run.proved(rule, b.path, d, '-> Float64(NaN)', loc)
+                continue
+            run.violation(rule, b.path, d, f'expected {sorted(v)}, found {sorted(map(str, got)) if got else "no such row"}: the decoder does not invert the encoder for this (tag, payload length)', loc)
+    for k, got in table.items():
+        if k not in exp and got != {('Err',)} and got != {None}:
+            run.violation(rule, b.path, f'row[{k[0]},{k[1]}]', f'unexpected decoder row {sorted(map(str, got))} (the encoder never produces this form)', loc)
+    # widening casts must preserve the value: source type signedness == variant signedness is covered by the table above
+
+
+def _is_nan_bits(s):
+    try:
+        bits = int(s.split(':')[1])
+    except Exception:
+        return False
+    exp = (bits >> 52) & 0x7FF
+    man = bits & ((1 << 52) - 1)
+    return exp == 0x7FF and man != 0
